@@ -217,6 +217,8 @@ Inductive op :=
 Definition is_add (o : op) : bool :=
   match o with AddDTSTART _ | AddEND _ | AddDURATION _ => true | _ => false end.
 
+Definition no_add (ops : list op) : bool := forallb (fun o => negb (is_add o)) ops.
+
 Definition step (k : ckind) (c : comp) (o : op) : comp * outcome :=
   match o with
   | SetDTSTART a | SetStart a => p_set k n_DTSTART (start_types k) a c
